@@ -1184,6 +1184,9 @@ class CE:
 
     def call_ext(self, dotted, args, kwargs, e, f):
         name = dotted.split(".")[-1]
+        xs = getattr(self, "ext_stubs", None)
+        if xs and name in xs:
+            return xs[name](*args, **kwargs)      # a rule's stand-in for a library constructor (e.g. Pauli -> its argument)
         if dotted == "builtins.int.from_bytes":
             if not (args and isinstance(args[0], (bytes, bytearray))):
                 raise Unsupported("int.from_bytes of a non-bytes value")
